@@ -241,15 +241,22 @@ type Impl struct {
 	psc      *netiotest.PipeStreamClient
 	pscCh    <-chan *netiotest.PipeConn
 	cheapObs bool // lookups only (no handshakes)
+	fallback bool // the TCP server has an unsafe fallback address (unauthenticated connections are forwarded there)
 }
 
 var serverAddr = conn.AddrFromIPAndPort(netip.IPv6Loopback(), 20220)
 var targetAddr = conn.AddrFromIPAndPort(netip.IPv6Loopback(), 53)
+var fallbackAddr = conn.AddrFromIPAndPort(netip.IPv6Loopback(), 8080)
 
 // newImpl builds the servers as service.ServerConfig does (identity cipher config from the server PSK,
 // the cred stores of the TCP/UDP servers handed to RegisterServer) and registers the store file.
 func newImpl(pskLen int, hasTCP, hasUDP bool, init Doc, start bool) (*Impl, error) {
-	im := &Impl{pskLen: pskLen, logger: zap.NewNop(), keys: universe(pskLen)}
+	return newImplFB(pskLen, hasTCP, hasUDP, init, start, false)
+}
+
+// newImplFB: as newImpl; with fallback the stream server is configured with an unsafe fallback address.
+func newImplFB(pskLen int, hasTCP, hasUDP bool, init Doc, start, fallback bool) (*Impl, error) {
+	im := &Impl{pskLen: pskLen, logger: zap.NewNop(), keys: universe(pskLen), fallback: fallback && hasTCP}
 	im.ipsk = bytes.Repeat([]byte{0xA5}, pskLen)
 	icc, err := ss2022.NewServerIdentityCipherConfig(im.ipsk, true)
 	if err != nil {
@@ -258,6 +265,9 @@ func newImpl(pskLen int, hasTCP, hasUDP bool, init Doc, start bool) (*Impl, erro
 	var tcpStore, udpStore *ss2022.CredStore
 	if hasTCP {
 		scc := ss2022.StreamServerConfig{IdentityCipherConfig: icc}
+		if fallback {
+			scc.UnsafeFallbackAddr = fallbackAddr
+		}
 		im.tcp = scc.NewStreamServer()
 		tcpStore = &im.tcp.CredStore
 		im.psc, im.pscCh = netiotest.NewPipeStreamClient(netio.StreamDialerInfo{Name: "c08", NativeInitialPayload: true})
@@ -373,6 +383,9 @@ type Obs struct {
 	Hs    [2]map[int]string // handshake outcome per universe key: username or "!" = rejected
 	Have  [2]bool
 	File  Doc
+	// Forged: violations seen when unauthenticated connections were presented to a TCP server with a fallback
+	// address ("<variant>: <what happened>"); empty when all of them came back as anonymous fallback requests.
+	Forged []string `json:",omitempty"`
 }
 
 func (im *Impl) observe() (o Obs, err error) {
@@ -432,12 +445,132 @@ func (im *Impl) observe() (o Obs, err error) {
 			}
 		}
 	}
+	if im.fallback && im.tcp != nil && !im.cheapObs {
+		if o.Forged, err = im.unauthenticated(o); err != nil {
+			return o, err
+		}
+	}
 	b, rerr := os.ReadFile(im.path)
 	if rerr != nil {
 		return o, rerr
 	}
 	o.File = docOfText(b)
 	return o, nil
+}
+
+// captureClient records the bytes a real ss2022 client would send for its handshake.
+type captureClient struct{ sent []byte }
+
+func (c *captureClient) NewStreamDialer() (netio.StreamDialer, netio.StreamDialerInfo) {
+	return c, netio.StreamDialerInfo{Name: "capture", NativeInitialPayload: true}
+}
+
+func (c *captureClient) DialStream(_ context.Context, _ conn.Addr, payload []byte) (netio.Conn, error) {
+	c.sent = append([]byte(nil), payload...)
+	pl, pr := netio.NewPipe()
+	pr.Close()
+	return pl, nil
+}
+
+// clientBytes: the genuine handshake bytes of a client holding user key k.
+func (im *Impl) clientBytes(k Key) ([]byte, error) {
+	ccc, err := ss2022.NewClientCipherConfig(k.Bytes(), [][]byte{im.ipsk}, false)
+	if err != nil {
+		return nil, fmt.Errorf("harness: client cipher config: %w", err)
+	}
+	cap := &captureClient{}
+	cc := ss2022.StreamClientConfig{Name: "c08", InnerClient: cap, Addr: serverAddr, CipherConfig: ccc}
+	c, err := cc.NewStreamClient().DialStream(context.Background(), targetAddr, []byte("hello c08"))
+	if err != nil {
+		return nil, fmt.Errorf("harness: capture dial: %w", err)
+	}
+	c.Close()
+	return cap.sent, nil
+}
+
+// present hands raw bytes to the real stream server as a new connection.
+func (im *Impl) present(b []byte) (netio.ConnRequest, error) {
+	pl, pr := netio.NewPipe()
+	done := make(chan struct{})
+	go func() {
+		defer close(done)
+		pl.Write(b)
+		pl.CloseWrite()
+	}()
+	req, err := im.tcp.HandleStream(pr, im.logger)
+	pr.Close()
+	pl.Close()
+	<-done
+	return req, err
+}
+
+// unauthenticated presents connections that must NOT authenticate to a server with a fallback address and
+// reports every one that is not handed back as an anonymous fallback request: for every listed user V
+//
+//	forged-identity: V's identity header (every user holds the server iPSK and sees uPSK hashes) in front of a
+//	                 fixed-length header sealed under another universe key (listed or not);
+//	garbage-header:  V's identity header, random bytes where the sealed header should be;
+//	replay:          V's own genuine handshake presented a second time;
+//
+// and unknown-identity: a genuine handshake of a key that is not listed.
+func (im *Impl) unauthenticated(o Obs) (bad []string, err error) {
+	saltLen := im.pskLen
+	icc, err := ss2022.NewServerIdentityCipherConfig(im.ipsk, false)
+	if err != nil {
+		return nil, fmt.Errorf("harness: %w", err)
+	}
+	check := func(variant, what string, b []byte) {
+		req, herr := im.present(b)
+		switch {
+		case herr != nil:
+			bad = append(bad, fmt.Sprintf("%s: %s: refused (%v) although a fallback address is configured", variant, what, herr))
+		case !req.Addr.Equals(fallbackAddr):
+			bad = append(bad, fmt.Sprintf("%s: %s: accepted as a request to %v for user %q", variant, what, req.Addr, req.Username))
+		case req.Username != "":
+			bad = append(bad, fmt.Sprintf("%s: %s: handed to the fallback address but attributed to user %q", variant, what, req.Username))
+		}
+	}
+	for _, v := range im.keys {
+		owner := o.Look[0][v.Id]
+		if owner == "!" {
+			b, err := im.clientBytes(v)
+			if err != nil {
+				return nil, err
+			}
+			check("unknown-identity", fmt.Sprintf("genuine handshake under unlisted key %d", v.Id), b)
+			continue
+		}
+		vh := ss2022.PSKHash(v.Bytes())
+		for _, a := range im.keys {
+			if a == v {
+				continue
+			}
+			b, err := im.clientBytes(a)
+			if err != nil {
+				return nil, err
+			}
+			blk, err := icc.TCP(b[:saltLen])
+			if err != nil {
+				return nil, fmt.Errorf("harness: identity cipher: %w", err)
+			}
+			blk.Encrypt(b[saltLen:saltLen+ss2022.IdentityHeaderLength], vh[:])
+			check("forged-identity", fmt.Sprintf("identity header of %s (key %d) in front of a header sealed under key %d", owner, v.Id, a.Id), b)
+		}
+		b, err := im.clientBytes(v)
+		if err != nil {
+			return nil, err
+		}
+		g := append([]byte(nil), b...)
+		for i := saltLen + ss2022.IdentityHeaderLength; i < len(g); i++ {
+			g[i] ^= byte(0x5a + i)
+		}
+		check("garbage-header", fmt.Sprintf("identity header of %s (key %d) in front of garbage", owner, v.Id), g)
+		if req, herr := im.present(b); herr != nil || !req.Addr.Equals(targetAddr) || encName(req.Username) != owner {
+			bad = append(bad, fmt.Sprintf("genuine: handshake of %s (key %d) with a fallback address configured: err=%v addr=%v user=%q", owner, v.Id, herr, req.Addr, req.Username))
+		}
+		check("replay", fmt.Sprintf("genuine handshake of %s (key %d) presented again", owner, v.Id), b)
+	}
+	return bad, nil
 }
 
 // tcpHandshake: a real ss2022 client with this user key dials through a pipe; the real stream server handles it.
@@ -461,6 +594,13 @@ func (im *Impl) tcpHandshake(k Key) (user string, accepted bool, err error) {
 	pc.Close()
 	<-done
 	if herr != nil {
+		return "", false, nil
+	}
+	if im.fallback && req.Addr.Equals(fallbackAddr) {
+		// not authenticated: forwarded to the fallback address; it must be nobody's
+		if req.Username != "" {
+			return "", false, fmt.Errorf("fallback request for a rejected key is attributed to user %q", req.Username)
+		}
 		return "", false, nil
 	}
 	if !req.Addr.Equals(targetAddr) {
